@@ -223,11 +223,16 @@ Theorem C14_tie_init : forall stmt start th md,
   get_comp (init_state stmt start th md) = RunArgComposer_init (Nextline_init_options stmt start th md).
 Proof. exact tie_init. Qed.
 
-(** compose_run_arg, then what RunNoRegistrar / RunInfoRegistrar publish at on_initialize_run *)
+(** compose_run_arg, then what RunNoRegistrar / RunInfoRegistrar publish at on_initialize_run.
+    Honest label: [gen_initialize_run] (Life/ArgTie.v) is a hand-written wrapper -- "compose once, store run_arg,
+    RunNo before RunInfo, then the hook record" is the model's own glue ([set_run_arg]/[publish]/[log_hook]; the order of
+    the plugins is Gen/HookOrder.v's business, Callback.initialize_run is Gen/CallbackSkeleton.v's); what comes from the
+    source here is the RunArg value, the composer after the call and the two publication lists, with
+    isinstance(statement, str) = true only (the model's statements are scripts) *)
 Theorem C14_tie_initialize_run : forall s, initialize_run s = gen_initialize_run s.
 Proof. exact tie_initialize_run. Qed.
 
-Theorem C14_tie_enter_start : forall s t c, enter_start s t c = gen_enter_start s t c.
+Theorem C14_tie_enter_start : forall s t c, Some (enter_start s t c) = gen_enter_start s t c.
 Proof. exact tie_enter_start. Qed.
 
 Theorem C14_tie_start_resume : forall c,
@@ -236,23 +241,46 @@ Theorem C14_tie_start_resume : forall c,
 Proof. exact tie_start_resume. Qed.
 
 (** the reset hook up to its first suspension (the nested on_change_script, or its end) *)
-Theorem C14_tie_enter_reset : forall s t o, enter_reset s t o = gen_enter_reset s t o.
+Theorem C14_tie_enter_reset : forall s t o, Some (enter_reset s t o) = gen_enter_reset s t o.
 Proof. exact tie_enter_reset. Qed.
 
 (** ... and its continuation after the gate, applied to the state as it is then *)
-Theorem C14_tie_resume_reset : forall s0 s o, o_stmt o <> None -> apply_rest s o = gen_resume_reset s0 s o.
+Theorem C14_tie_resume_reset : forall s0 s o, o_stmt o <> None -> Some (apply_rest s o) = gen_resume_reset s0 s o.
 Proof. exact tie_resume_reset. Qed.
 
 Theorem C14_tie_reset_whole : forall s o,
   model_reset s o = put_comp s (finish (RunArgComposer_reset (get_comp s) (ropts o))).
 Proof. exact tie_reset_whole. Qed.
 
-Theorem C14_tie_registrars : forall ra x f,
-  decode_all (ScriptRegistrar_on_change_script x f) = Some [PStatement x] /\
-  decode_all (RunNoRegistrar_on_initialize_run (HookContext_mk ra)) = Some [PRunNo (rg_run_no ra)] /\
-  decode_all (RunInfoRegistrar_on_initialize_run (HookContext_mk ra) true)
+Theorem C14_tie_registrars : forall ra cx x,
+  decode_res (ScriptRegistrar_on_change_script cx x SCRIPT_FILE_NAME) = Some [PStatement x] /\
+  decode_res (RunNoRegistrar_on_initialize_run (HookContext_mk (Some ra))) = Some [PRunNo (rg_run_no ra)] /\
+  decode_res (RunInfoRegistrar_on_initialize_run (HookContext_mk (Some ra)) true)
     = Some [PRunInfo (rg_run_no ra) RInitialized (rg_statement ra) None].
 Proof. exact tie_registrars. Qed.
+
+(** `assert context.run_arg` in the two registrars is a raising branch of the translation *)
+Theorem C14_tie_registrars_assert : forall b,
+  RunNoRegistrar_on_initialize_run (HookContext_mk None) = None /\
+  RunInfoRegistrar_on_initialize_run (HookContext_mk None) b = None.
+Proof. exact registrars_assert. Qed.
+
+(** start and reset contain no assert that can fail ([Raise] is what an assert translates to) *)
+Theorem C14_tie_never_raises : forall c o,
+  raises (RunArgComposer_reset c o) = false /\ raises (RunArgComposer_start c) = false /\
+  (forall c1 k, RunArgComposer_reset c o = Await (set_statement c (dflt (a_statement c) (ro_statement o)))
+                                             (OnChangeScript (dflt (a_statement c) (ro_statement o)) (a_filename c)) k ->
+                raises (k c1) = false).
+Proof. exact never_raises. Qed.
+
+(** exceptions / cancellation at the nested await.  NOT a statement about the model: Life/Model.v has no label for a
+    raising hook or a cancelled transition (raising user plugins are excluded, DESIGN 6.1; the lock of imp.py keeps other
+    calls out).  On the transcribed code (which has no try/with -- the translator refuses them): if on_change_script
+    raises inside reset, or the task is cancelled there, the composer is left with the new statement and none of the
+    other options, and the exception leaves reset() *)
+Theorem C14_tie_reset_interrupted_at_hook : forall c o,
+  interrupted_at_hook (RunArgComposer_reset c o) = option_map (set_statement c) (ro_statement o).
+Proof. exact reset_interrupted_at_hook. Qed.
 
 (** a reset applies exactly the given options (an explicit False / 0 included) and nothing else *)
 Theorem C14_tie_reset_exact : forall c o,
@@ -307,7 +335,10 @@ Theorem C14_tie_numbers_after_plain_reset : forall n c o,
   fst (compose_n n (finish (RunArgComposer_reset c o))) = map (fun i => a_run_no_count c + Z.of_nat i) (seq 0 n).
 Proof. exact numbers_after_plain_reset. Qed.
 
-(** defaults and argument wiring of Nextline(...) / Nextline.reset(...) *)
+(** defaults and argument wiring of Nextline(...) / Nextline.reset(...): [Nextline_init_options] / [Nextline_reset_options]
+    are the record HANDED to Imp(...) / Imp.reset(...), computed by the translated statement lists of the two methods
+    (a store through the record, an `if`, a re-binding by an untranslatable expression are refused by the translator);
+    Imp.__init__ -> hook.init and Imp.reset -> the reset hook are NOT followed here (imp.py, fsm/) *)
 Theorem C14_tie_defaults :
   (forall stmt, Nextline_init_options stmt Nextline_init_default_run_no_start_from
                   Nextline_init_default_trace_threads Nextline_init_default_trace_modules
@@ -379,3 +410,6 @@ Print Assumptions C14_tie_defaults.
 Print Assumptions C14_tie_option_wiring.
 Print Assumptions C14_tie_reset_atomic.
 Print Assumptions C14_tie_example.
+Print Assumptions C14_tie_registrars_assert.
+Print Assumptions C14_tie_never_raises.
+Print Assumptions C14_tie_reset_interrupted_at_hook.
